@@ -264,11 +264,13 @@ func readBattery(w *c06world, t *iavl.MutableTree, v int64, snap model.Snap, has
 			if got := it.Hash(); !bytes.Equal(got, hash) {
 				w.bad("conc|"+tag+"|hash", "version %d Hash()=%x, commit returned %x", v, got, hash)
 			}
-			got, err := t.GetVersioned(k, v)
-			if err != nil || (got != nil) != present || (present && string(got) != want) {
-				w.bad("conc|"+tag+"|getversioned", "GetVersioned(%q,%d)=(%q,%v), committed contents say %q (present=%v)", k, v, got, err, want, present)
+			// (MutableTree.GetVersioned is not among the calls the property allows concurrently
+			// with the writer: it reads the working tree's fields)
+			k2, v2, err := it.GetByIndex(0)
+			if len(keys) > 0 && (err != nil || string(k2) != keys[0] || string(v2) != snap[keys[0]]) {
+				w.bad("conc|"+tag+"|getbyindex", "version %d GetByIndex(0)=(%q,%q,%v), want (%q,%q)", v, k2, v2, err, keys[0], snap[keys[0]])
 			}
-			w.count("reads_GetVersioned", 1)
+			w.count("reads_HashAndGetByIndex", 1)
 		}
 	}
 }
@@ -902,7 +904,7 @@ func init() {
 		},
 		Post: postRaceLogs,
 		Floor: func(obs map[string]int, evals, nontrivial int) string {
-			for _, k := range []string{"reads_Get", "reads_GetWithIndex", "reads_Has", "reads_Iterator", "reads_IterateRange", "reads_GetProof", "reads_Export", "reads_GetVersioned", "commits", "prunes", "export_pins_checked", "visibility_histories_linearizable", "hook_overlaps_save:after-commit", "hook_overlaps_prune:version-deleted"} {
+			for _, k := range []string{"reads_Get", "reads_GetWithIndex", "reads_Has", "reads_Iterator", "reads_IterateRange", "reads_GetProof", "reads_Export", "reads_HashAndGetByIndex", "commits", "prunes", "export_pins_checked", "visibility_histories_linearizable", "hook_overlaps_save:after-commit", "hook_overlaps_prune:version-deleted"} {
 				if obs[k] < 4 {
 					return fmt.Sprintf("observation %s=%d below floor", k, obs[k])
 				}
